@@ -31,6 +31,18 @@ use std::time::Duration;
 pub struct CountingAlloc;
 static ARMED: AtomicBool = AtomicBool::new(false);
 static MAX_REQ: AtomicUsize = AtomicUsize::new(0);
+/// bytes allocated minus bytes freed since arming, and its peak: memory held across many small requests
+static LIVE: std::sync::atomic::AtomicIsize = std::sync::atomic::AtomicIsize::new(0);
+static PEAK: std::sync::atomic::AtomicIsize = std::sync::atomic::AtomicIsize::new(0);
+#[inline]
+fn live(delta: isize) {
+    if ARMED.load(Ordering::Relaxed) {
+        let v = LIVE.fetch_add(delta, Ordering::Relaxed) + delta;
+        if delta > 0 {
+            PEAK.fetch_max(v, Ordering::Relaxed);
+        }
+    }
+}
 /// requests above this are never served: the worker reports them and aborts
 const CAP: usize = 1 << 30;
 
@@ -73,17 +85,21 @@ fn note(n: usize) {
 unsafe impl GlobalAlloc for CountingAlloc {
     unsafe fn alloc(&self, l: Layout) -> *mut u8 {
         note(l.size());
+        live(l.size() as isize);
         System.alloc(l)
     }
     unsafe fn dealloc(&self, p: *mut u8, l: Layout) {
+        live(-(l.size() as isize));
         System.dealloc(p, l)
     }
     unsafe fn alloc_zeroed(&self, l: Layout) -> *mut u8 {
         note(l.size());
+        live(l.size() as isize);
         System.alloc_zeroed(l)
     }
     unsafe fn realloc(&self, p: *mut u8, l: Layout, n: usize) -> *mut u8 {
         note(n);
+        live(n as isize - l.size() as isize);
         System.realloc(p, l, n)
     }
 }
@@ -93,11 +109,17 @@ static GLOBAL: CountingAlloc = CountingAlloc;
 
 fn arm() {
     MAX_REQ.store(0, Ordering::Relaxed);
+    LIVE.store(0, Ordering::Relaxed);
+    PEAK.store(0, Ordering::Relaxed);
     ARMED.store(true, Ordering::Relaxed);
 }
 fn disarm() -> usize {
     ARMED.store(false, Ordering::Relaxed);
     MAX_REQ.load(Ordering::Relaxed)
+}
+/// largest amount held at one time since arming (0 when more was freed than allocated); read after `disarm`
+fn peak_live() -> usize {
+    PEAK.load(Ordering::Relaxed).max(0) as usize
 }
 
 static LAST_PANIC: Mutex<Option<String>> = Mutex::new(None);
@@ -554,7 +576,12 @@ fn run_real(c: &Case) -> String {
                     .map_err(|x| err_name(&x))
                 }
             });
+            // snapshot/screen loaders: also what was held at one time over many requests is reported (not
+            // through the gzip wrapper, whose own buffer has its own bound)
             let ma = disarm().max(gz_alloc);
+            if !gz {
+                extra = format!("live={:x}", peak_live());
+            }
             let post = post_frames(&mut e, 2);
             format!("{} {:x} {} {}", obs, ma, post, extra)
         }
@@ -1120,6 +1147,13 @@ impl Ctx {
             if acceptable { 1 } else { 0 },
             obs.alloc
         ));
+        // memory held at one time (sum over live requests): judged by the same spec function with the allowance
+        // extra = 3 x (input + 65536), i.e. four times the single-request bound
+        let held: Option<(String, usize, usize)> = obs.extra.strip_prefix("live=").and_then(|h| usize::from_str_radix(h, 16).ok()).map(|live| {
+            let allowance = 3 * (len as u64 + 65536);
+            let v = self.model.ask(&format!("judge {:x} {:x} 1 {:x}", len, allowance, live));
+            (v, live, 4 * (len + 65536))
+        });
         let alloc_site = match loader.as_str() {
             "szx" => "szxAlloc",
             "vtx" => "vtxAlloc",
@@ -1161,6 +1195,15 @@ impl Ctx {
                 what: format!("after the load returned {} the emulator did not survive further frames: {}", obs.class, obs.post),
                 implementation: impl_s,
                 expected: "frames after the load run without panic".into(),
+            })
+        } else if held.as_ref().map_or(false, |(v, _, _)| v == "badAlloc") {
+            let (_, live, bound) = held.clone().unwrap();
+            Some(Finding {
+                kind: Kind::SpecViolated,
+                key: format!("C15/{}/held-memory", loader),
+                what: format!("loading {} bytes held {} bytes of heap at one time over many requests (bound for memory held: 4 x (input + 65536) = {})", len, live, bound),
+                implementation: impl_s,
+                expected: "memory in proportion to the input".into(),
             })
         } else if verdict != "ok" {
             Some(Finding {
@@ -1262,6 +1305,55 @@ fn zlib_stored(n: usize, b: u8) -> Vec<Seg> {
     }
     v.push(Seg::H(adler32_fill(n, b).to_be_bytes().to_vec()));
     v
+}
+
+/// zlib stream of one 16 KiB page of zeros in 115 bytes: a literal and 64 matches at distance 1 (fixed Huffman codes)
+fn zlib_zero_page() -> Vec<u8> {
+    let mut out = vec![0x78u8, 0x01];
+    let mut acc: u64 = 0;
+    let mut nb = 0u32;
+    // deflate packs header/extra bits LSB first, Huffman codes MSB first
+    let mut put = |out: &mut Vec<u8>, v: u32, n: u32, msb_first: bool| {
+        for i in 0..n {
+            let bit = if msb_first { (v >> (n - 1 - i)) & 1 } else { (v >> i) & 1 };
+            acc |= (bit as u64) << nb;
+            nb += 1;
+            if nb == 8 {
+                out.push(acc as u8);
+                acc = 0;
+                nb = 0;
+            }
+        }
+    };
+    put(&mut out, 1, 1, false); // BFINAL
+    put(&mut out, 1, 2, false); // fixed codes
+    put(&mut out, 0x30, 8, true); // literal 0
+    for _ in 0..63 {
+        put(&mut out, 0xC5, 8, true); // length 258 (code 285)
+        put(&mut out, 0, 5, true); // distance 1
+    }
+    put(&mut out, 0xC0, 8, true); // code 280: lengths 115..130, four extra bits
+    put(&mut out, 129 - 115, 4, false);
+    put(&mut out, 0, 5, true);
+    put(&mut out, 0, 7, true); // end of block
+    put(&mut out, 0, 7, false); // pad to a byte boundary
+    out.extend_from_slice(&adler32_fill(16384, 0).to_be_bytes());
+    out
+}
+
+/// A well-formed SZX made of `n` compressed RAMP chunks for one page: every length field is honest, what a loader
+/// may hold is still bounded by the file, not by the number of pages it has seen.
+fn szx_many_pages(m128: bool, n: usize) -> Case {
+    let z = zlib_zero_page();
+    let mut b = SzxB::new(if m128 { 2 } else { 1 });
+    for k in 0..n {
+        b.inflate.push(format!("{:x}:{:x}", b.data_off() + 3, 16384));
+        let page = if m128 { (k % 8) as u8 } else { [0u8, 2, 5][k % 3] };
+        let mut d = vec![1u8, 0, page];
+        d.extend_from_slice(&z);
+        b.chunk(b"RAMP", d.len() as u32, vec![Seg::H(d)]);
+    }
+    b.finish(Case::new("szx").machine(m128, false, 0))
 }
 
 /// merges adjacent literal segments (keeps one chunk = few segments for the shrinker)
@@ -2277,6 +2369,10 @@ kind or failure site)"
     // 1. corpus: the witnesses themselves
     for (_, c) in &wit {
         q.push(c.clone());
+    }
+    // 1b. well-formed files whose cost lies in the number of chunks, not in any single length field
+    for (m128, n) in [(false, 1200usize), (true, 1200), (false, 37), (true, 300)] {
+        q.push(szx_many_pages(m128, n));
     }
 
     let mut notes = vec![];
